@@ -293,7 +293,7 @@ class Gen:
         if x < 0.6 or not self.m.records:
             ty = self.scalar()
         elif x < 0.8:
-            ty = Array(self.int_type(), [self.r.randint(1, 5)])
+            ty = Array(self.int_type(), [self.r.choice([1, 2, 3, 4, 5, 5, 33, 64])])
         else:
             rec = self.r.choice([r for r in self.m.records if not r.has_fam] or [None])
             ty = RecordRef(rec) if rec else self.int_type()
@@ -401,7 +401,8 @@ class Gen:
             if self.p("p_array") and not (isinstance(ty, Scalar) and ty.kind == "fnptr" and False):
                 dims = [self.r.randint(1, 4) for _ in range(self.r.choice([1, 1, 1, 2, 2, 3]))]
                 if self.r.random() < 0.1:
-                    dims[0] = self.r.choice([33, 40, 64])
+                    # a dimension past the 32-element limit of the std trait impls, in any position (outer, inner, innermost)
+                    dims[self.r.randrange(len(dims))] = self.r.choice([33, 40, 64])
                 ty = Array(ty, dims)
             al = None
             if self.p("p_field_align") and not packed_ctx:
